@@ -923,6 +923,19 @@ func GrammarGen(cfg GenConfig) *rapid.Generator[*Grammar] {
 				c.g.Entries = append(c.g.Entries, w.Name)
 			}
 		}
+		if cfg.SharedRefs && !cfg.OptBait {
+			// Loop = ( E1 / E2 / . )* : an entry that works its way through any input, trying the
+			// other entries at every offset (long inputs, see C06)
+			alts := &Expr{K: KChoice}
+			for _, en := range entries {
+				if !c.nullable[en] && len(alts.Sub) < 3 {
+					alts.Sub = append(alts.Sub, &Expr{K: KRef, Name: en})
+				}
+			}
+			alts.Sub = append(alts.Sub, &Expr{K: KAny})
+			c.g.Rules = append(c.g.Rules, &Rule{Name: "Loop", Expr: &Expr{K: KStar, Sub: []*Expr{alts}}})
+			c.g.Entries = append(c.g.Entries, "Loop")
+		}
 		c.g.Pkg = "p"
 		if !cfg.NoSpellings && len(c.g.Rules) > 1 && c.chance(10, "decoyrule") {
 			c.g.Decoy = c.g.Rules[c.intn(1, len(c.g.Rules)-1, "decoyidx")].Name
